@@ -93,6 +93,13 @@ func authAllowed(w *world.World, p presentation, publicOK bool, assertionEnabled
 		return true, false, ""
 	case "assertion":
 		if c.Auth != oidc.AuthMethodPrivateKeyJWT {
+			// a cell of its own for the one presentation that is faultless in itself (signed with the key the storage holds
+			// for this very client, right audience and times): the known finding of 12.22 is exactly this cell, every other
+			// assertion for such a client (another client's key, a foreign key, expired ...) stays in the general one
+			if c.Key != nil && p.assertKeyOf == id && p.assertKid == c.Key.KeyID && p.assertSub == p.assertIss && slices.Contains(p.assertAud, w.Issuer) &&
+				p.assertExp.After(now.Add(time.Minute)) && !p.assertIat.After(now) && p.assertIat.After(now.Add(-50*time.Minute)) {
+				return false, false, "own-key-assertion-but-registered-for-a-secret"
+			}
 			return false, false, "wrong-kind-of-credential"
 		}
 		if !assertionEnabled {
